@@ -15,15 +15,22 @@ THEOREMS = [
     "C04.parseValue_renderLit",
     "C04.parseValue_renderLit_partial",
     "C04.parseValue_string_counterexample",
+    "C04.parseValue_concat_expr",
     "C04.parseWhen_strlit_and_counterexample",
     "C04.parseWhen_strlit_paren_counterexample",
     "C04.parseThen_strlit_semicolon_counterexample",
     "C04.prefix_salience_negative_counterexample",
 ]
-N = {"quick": 2500, "thorough": 40000}
+N = {"quick": 2300, "thorough": 40000}
 EXHAUSTIVE = {"quick": False, "thorough": False}
 RULE = ("cases = corpus (witness of every fixed defect and of every open finding) + every subset of the seven rule attributes in a "
-        "shuffled order + N files generated from the documented GRL grammar: 0..8 rules, quoted/bare names, optional description, "
+        "shuffled order + string concatenations (operands: string literals of both quote kinds incl. empty / metacharacter / placeholder "
+        "look-alike bodies, dotted fields, identifiers, numbers, joined by `+`): every shape that starts AND ends with a literal "
+        "(L+F+L, L+L, L+L+L, L+I+L, L+N+L, L+F+L+F+L) with both quote kinds, and a sample of the one-sided / field-first / mixed-quote "
+        "shapes, in each of 11 positions where parse_value reads a value (condition value, inside a compound condition, function-call "
+        "condition, assigned value, += value, call argument, Log argument, array element of an assignment and of an `in` list, value "
+        "after an arithmetic left side, multifield count value); expected = Value::Expression(source text, literal bodies unmasked); the "
+        "same concatenations are drawn in the random stream (scalars, values, array elements, Log) + N files generated from the documented GRL grammar: 0..8 rules, quoted/bare names, optional description, "
         "salience over the i32 range, condition trees to depth 5 (6 in thorough) over every atom form, literals of every type "
         "(i64 extremes, decimals, both quote styles, non-ASCII text, comment markers inside strings, one string in three with GRL "
         "metacharacters / keywords / placeholder look-alikes in its body: } { && || ' then ' ( ) ; = , += rule-when-then text; "
@@ -69,7 +76,8 @@ def classify(case, impl, model, oracle, kind):
 
 LEVEL_TEXT = ("Lean 4 theorems (kernel-checked, unbounded: every condition tree, every layout) about an executable model of the GRL "
               "parser's algorithmic layers: parsing the rendering of a condition tree returns the tree (&& tighter than ||, parentheses, "
-              "!, exists/forall; any white space, any redundant parentheses), statement lists and literals round-trip, comments and quoted "
+              "!, exists/forall; any white space, any redundant parentheses), statement lists and literals round-trip, a string concatenation "
+              "that starts and ends with a literal is the expression that was written and never one literal, comments and quoted "
               "header strings are opaque; tied to src/parser/grl.rs by a correspondence check on generated GRL files (full AST of "
               "parse_rules / parse_rule / parse_with_modules vs model) and by the round-trip oracle on the implementation's own output.")
 LEVEL_NOTE = ("Partial: the regex capture layer is modelled by scanning functions and tied by the correspondence only. String literals "
